@@ -666,13 +666,13 @@ class GroupBy:
         self, arr: np.ndarray, orig_type, index: pd.Index
     ) -> pd.Series:
         if arr.dtype.kind == "M":
+            # the epoch integers are unambiguous (UTC); a naive datetime64 array would be
+            # re-read as local wall time for time-zone-aware types
+            arr = arr.view(int)
             if isinstance(orig_type, pl.DataType):
-                series = pl.Series(arr, dtype=orig_type)
-                arrow = series.to_arrow()
-                arr = arrow.to_numpy(zero_copy_only=False)  # nulls need a copy
-                dtype = pd.ArrowDtype(arrow.type)
+                arrow_type = pl.Series([], dtype=orig_type).to_arrow().type
+                dtype = pd.ArrowDtype(arrow_type)
             else:
-                arr = arr.view(int)
                 dtype = orig_type
                 if isinstance(dtype, pa.DataType):
                     # values given as a bare pyarrow array: pandas needs the wrapped dtype
